@@ -17,7 +17,7 @@ QUE = '(not %s and not %s)' % (RXN, VOL)
 FIRE = '(%s and Lambda > 0)' % RXN
 
 
-@fuc('simulator', 'DelayVolumeSSASimulator.delay_volume_simulate', props=['C07', 'C10', 'C11', 'C06'])
+@fuc('simulator', 'DelayVolumeSSASimulator.delay_volume_simulate', props=['C07', 'C10', 'C11', 'C06', 'C09'])
 def _(c):
     c.array('timepoints', ndim=1, elem='Real')
     c.hints['q'] = dict(cls='ArrayDelayQueue', exact=True)
@@ -61,6 +61,8 @@ def _(c):
               label='no-event-no-change')
     main.step('implies(not %s, forall(lambda r, k: implies(in_view(q, r, k), pend(q, r, k) == head(pend(q, r, k)))) or %s)' % (QUE, FIRE),
               label='queue-untouched-unless-delivery-or-firing')
+    # dt rules fire on the next pass only after a volume step or a jump to a grid time, not after a reaction or a queue delivery
+    main.step('rule_step == ite(step_type == 1 or step_type == 3, 1, 0)', label='rule-step-flag')
     main.step('forall(lambda m, s: implies(head(current_index) <= m and m < current_index and 0 <= s and s < num_species, '
               'c_results[m, s] == %s[s]))' % XR, label='rows-get-the-pre-event-state')
     main.step('forall(lambda m, s: implies((m < head(current_index) or m >= current_index), c_results[m, s] == head(c_results[m, s])))',
